@@ -23,14 +23,16 @@ func (i *kvIndex) Get(key string) interface{} {
 }
 
 func (i *kvIndex) UpdateIndex(oplog ipfslog.Log, _ []ipfslog.Entry) error {
+	// the log is read under the lock: an update working from an older view of
+	// the log must not overwrite the result of one that has seen more of it
+	i.muIndex.Lock()
+	defer i.muIndex.Unlock()
+
 	entries := oplog.Values().Slice()
 	size := len(entries)
 	verifhook.At("index.snapshot.taken", i)
 
 	handled := map[string]struct{}{}
-
-	i.muIndex.Lock()
-	defer i.muIndex.Unlock()
 
 	for idx := range entries {
 		item, err := operation.ParseOperation(entries[size-idx-1])
